@@ -55,7 +55,9 @@ Definition bodyBytes (R : response) : bytes := match r_raw R with Some b => b | 
 
 (* closeBodyStream; bodyBuffer() = { bodyRaw = nil; return body } *)
 Definition SetBody (R : response) (b : bytes) : response := mkR (r_hd R) b None None (r_skip R).
-Definition AppendBody (R : response) (p : bytes) : response := mkR (r_hd R) (r_body R ++ p) None None (r_skip R).
+(* appendBodyBuffer: a body set with SetBodyRaw is copied into the buffer first *)
+Definition AppendBody (R : response) (p : bytes) : response :=
+  mkR (r_hd R) ((match r_raw R with Some x => x | None => r_body R end) ++ p) None None (r_skip R).
 Definition ResetBody (R : response) : response := mkR (r_hd R) [] None None (r_skip R).
 Definition SetBodyRaw (R : response) (b : bytes) : response := mkR (r_hd R) [] (Some b) None (r_skip R).
 Definition SetBodyStream (R : response) (s : stream) (size : Z) : response :=
